@@ -41,7 +41,12 @@ func checkC14(c *Ctx) {
 		DumpThor:  map[string]string{"MaxCells": "2", "MaxDepth": "4", "MaxMods": "3"},
 		SampleQ:   "600", SampleT: "60", MaxReplayQ: 1500,
 		Invariants: []string{"InvCanonical"}, Properties: []string{"FailedIsNoop", "Frame", "DropLaw", "TokenLaw"},
-		Gen: genAdminProgram, NRandQ: 150, NRandT: 9000,
+		Gen: func(r *rand.Rand) []bt.Op {
+			if r.Intn(10) == 0 {
+				return genPrefixDropProgram(r)
+			}
+			return genAdminProgram(r)
+		}, NRandQ: 150, NRandT: 9000,
 	})
 }
 
